@@ -484,6 +484,15 @@ fn build_disclosure(claims: &mut Value, disclosable_claim: &str) -> Result<Discl
         .replace("~0", "~");
     let key = key.as_str();
 
+    // the claims hold no member named `_sd` or `...`: a path through such a name can only lead into
+    // the digest lists and placeholders that earlier paths of the same list left in the working copy
+    if disclosable_claim
+        .split('/')
+        .any(|token| token == "_sd" || token == "...")
+    {
+        return Err(Error::InvalidPathPointer);
+    }
+
     let parent = claims
         .pointer_mut(parent_ptr)
         .ok_or(Error::InvalidPathPointer)?;
@@ -491,6 +500,10 @@ fn build_disclosure(claims: &mut Value, disclosable_claim: &str) -> Result<Discl
         let parent = parent.as_array_mut().ok_or(Error::InvalidPathPointer)?;
         let key_index: usize = key.parse()?;
         if key_index >= parent.len() {
+            return Err(Error::InvalidPathPointer);
+        }
+        // the element was made disclosable by an earlier path already: only its placeholder is left
+        if parent[key_index].get("...").is_some() {
             return Err(Error::InvalidPathPointer);
         }
         let value = parent.remove(key_index);
